@@ -93,6 +93,9 @@ def assign_tokens_until_matching_closing_paren(token, iToken, lObjects):
     iCurrent = iToken
     while iCurrent < len(lObjects):
         iCurrent = find_next_token(iCurrent, lObjects)
+        if not is_item(lObjects, iCurrent):
+            # Nothing left to classify, the closing parenthesis is missing
+            return iCurrent
         iCounter = update_paren_counter(iCurrent, lObjects, iCounter)
         if token_is_close_parenthesis(iCurrent, lObjects) and iCounter == 0:
             return iCurrent
